@@ -25,6 +25,12 @@ fn main() {
         }
         return;
     }
+    if args.len() >= 2 && args[1] == "deep" {
+        std::process::exit(props::misc::deep_main());
+    }
+    if args.len() >= 2 && args[1] == "k1" {
+        std::process::exit(props::misc::k1_main());
+    }
     if args.len() < 5 {
         eprintln!("usage: harness <property> <quick|thorough> <seed> <out.json>");
         std::process::exit(2);
@@ -88,6 +94,16 @@ fn main() {
                 }
             },
         }
+    }
+    let (extra_n, extra_viol, extra_notes) = prop.extra(tier, &mut rng);
+    evaluations += extra_n;
+    for (h, d) in extra_viol {
+        if spec_violations.len() < 5000 {
+            spec_violations.push((h, d));
+        }
+    }
+    for n in &extra_notes {
+        *classes.entry(format!("extra:{}", n)).or_insert(0) += 1;
     }
     if samples.is_empty() {
         if let Some(c) = cases.first() {
